@@ -479,6 +479,14 @@ func (v *Validator) typeOfComparison(env *requestEnv, left, right ast.IsNode, ca
 		rightExpectErr = expectRight(rt)
 	}
 
+	// both operands are individually comparable: they must also be of the same type
+	// (Long < datetime is a run-time type error)
+	if leftErr == nil && rightErr == nil && leftExpectErr == nil && rightExpectErr == nil && lt != nil && rt != nil {
+		if _, err := v.leastUpperBound(lt, rt); err != nil {
+			rightExpectErr = unexpectedTypeErr(cedarTypeName(lt), rt)
+		}
+	}
+
 	var errs []error
 	if leftErr != nil {
 		if ue, ok := leftErr.(interface{ Unwrap() []error }); ok {
